@@ -186,7 +186,6 @@ func (c *Conn) setSession(session Session) {
 
 func (c *Conn) Close() error {
 	c.locker.Lock()
-	defer c.locker.Unlock()
 
 	c.closed = true
 
@@ -195,9 +194,14 @@ func (c *Conn) Close() error {
 		c.bdatPipe = nil
 	}
 
-	if c.session != nil {
-		c.session.Logout()
-		c.session = nil
+	// Logout runs without the lock: a backend may end the server from it,
+	// and Server.Close closes this connection again.
+	session := c.session
+	c.session = nil
+	c.locker.Unlock()
+
+	if session != nil {
+		session.Logout()
 	}
 
 	return c.conn.Close()
